@@ -18,8 +18,9 @@ THEOREMS = [
     "C06S.spec_holds", "C06S.timeout_exact", "C06S.never_late", "C06S.never_early", "C06S.slice_bound",
     "C06S.no_timeout_without_deadline", "C06S.data_asap", "C06S.closed_within_slice", "C06S.zero_timeout_poll",
     "C06S.hang_iff", "C06S.write_guard",
-    "C06S.chanRead_eq_ioRead", "C06S.chanRead_spec", "C06S.chanRead_le", "C06S.subprocess_refines_scripted",
-    "C06S.minReadWait_pos",
+    "C06S.loop_post", "C06S.read_ok", "C06S.write_ok",
+    "C06S.chanRead_eq_ioRead", "C06S.chanRead_spec", "C06S.chanRead_le", "C06S.chanRead_timed",
+    "C06S.subprocess_refines_scripted", "C06S.minReadWait_pos",
 ]
 LEAN_MODULES = ["TbotVerif.Props.C06S"]
 PARAM_EXTRACTORS = ["subioextract"]
